@@ -430,6 +430,37 @@ def parse_fn(text):
     return f
 
 
+def split_const_bodies(mir):
+    """yield (name, type, text_or_value) for `const NAME: TY = { body }` / `const NAME: TY = const V;` items"""
+    for m in re.finditer(r'^const (.+) = (\{\n|const .*;$)', mir, re.M):
+        head, rest = m.group(1), m.group(2)
+        # split NAME: TY at the first top-level ': ' (impl paths contain ': ' inside <...>)
+        depth, cut = 0, -1
+        for i, c in enumerate(head):
+            if c == '<':
+                depth += 1
+            elif c == '>' and i and head[i - 1] != '-':
+                depth -= 1
+            elif depth == 0 and head.startswith(': ', i):
+                cut = i; break
+        if cut < 0:
+            continue
+        name, ty = head[:cut], head[cut + 2:]
+        if rest.startswith('const '):
+            yield name, ty, ('value', rest[6:-1].strip())
+        else:
+            end = mir.find('\n}\n', m.end())
+            if end < 0:
+                continue
+            yield name, ty, ('body', mir[m.end() - 2:end + 3])
+
+
+def parse_const_body(name, ty, body_text):
+    """a const body is a function without arguments returning `ty`"""
+    fake = f'fn {name}() -> {ty} ' + body_text
+    return parse_fn(fake)
+
+
 def split_bodies(mir):
     """yield the text of every `fn` body (promoted[...] bodies and statics are dropped)."""
     heads = [m.start() for m in re.finditer(r'^(?:fn |const |static |promoted\[|// MIR FOR CTFE)', mir, re.M)]
@@ -450,6 +481,18 @@ class Program:
         self.by_norm = {}    # normalised name -> [Fn]
         self.closures = {}   # closure location string -> Fn
         self.errors = []
+        self.const_bodies = {}   # name -> Fn (no args)
+        self.const_values = {}   # name -> text
+        for name, ty, (kind, payload) in split_const_bodies(mir):
+            if kind == 'value':
+                self.const_values[name] = payload
+            else:
+                try:
+                    f = parse_const_body(name, ty, payload)
+                    f.key = norm_name(f.name)
+                    self.const_bodies[name] = f
+                except Exception as e:
+                    self.errors.append((name[:100], 'const: ' + repr(e)))
         import hashlib
         self.hashes = {}
         for t in split_bodies(mir):
